@@ -340,7 +340,15 @@ class Arbiter:
 
     def halt(self, reason=None, exit_status=0):
         """ halt arbiter """
-        self.stop()
+        while True:
+            try:
+                self.stop()
+                break
+            except HaltServer:
+                # further workers failed to boot while the first failure
+                # is being handled (raised from the SIGCHLD handler):
+                # keep stopping, with the first reason and exit status
+                continue
 
         log_func = self.log.info if exit_status == 0 else self.log.error
         log_func("Shutting down: %s", self.master_name)
